@@ -279,6 +279,7 @@ class SimFS:
         path = os.fspath(file)
         if isinstance(path, bytes):
             path = path.decode()
+        path = os.path.abspath(path)
         rec = OpenRec(path, mode, encoding, newline, errors, buffering, self.op_index)
         self.counters['opens'] += 1
         for f in self.active_faults('open'):
